@@ -181,7 +181,9 @@ def _finish_returns(t, top):
     """guard clauses that ended up at the top of a fn / closure body only after floating are an if / else chain as well"""
     def conv(b):
         for _ in range(8):
-            if b[0] == "early" and b[1] and b[1][-1][1][0] == "ret" and b[1][-1][0] != ("lit", "match"):
+            if b[0] == "ret":
+                b = b[1]                  # `return v` as the last thing a body does is its value
+            elif b[0] == "early" and b[1] and b[1][-1][1][0] == "ret" and b[1][-1][0] != ("lit", "match"):
                 b = _ret_chain(b[1], b[2])
             elif b[0] == "early" and b[2][0] == "early":
                 b = ("early", list(b[1]) + list(b[2][1]), b[2][2])       # consecutive guard clauses are one list
@@ -500,7 +502,16 @@ def _not(c):
         return ("iflet-not", c[1], c[2])
     if c[0] == "op" and c[1] in ("==", "!=") and len(c[2]) == 2:
         return ("op", "!=" if c[1] == "==" else "==", c[2])
+    if c[0] == "op" and c[1] in ("&&", "||") and len(c[2]) == 2:
+        return ("op", "||" if c[1] == "&&" else "&&", [_not(c[2][0]), _not(c[2][1])])      # De Morgan
     return ("op", "Not", [c])
+
+
+def _negs(c):
+    """number of negated leaves of a condition built from && / ||"""
+    if c[0] == "op" and c[1] in ("&&", "||"):
+        return sum(_negs(x) for x in c[2])
+    return 1 if (c[0] == "op" and c[1] == "Not") or c[0] == "iflet-not" else 0
 
 
 def _distribute_field(b, i):
@@ -532,6 +543,10 @@ def _mk_if(c, t, e):
         return _mk_if(c[2][0], e, t)
     if c[0] == "iflet-not":
         return _mk_if(("iflet", c[1], c[2]), e, t)
+    if c[0] == "op" and c[1] in ("&&", "||"):
+        nc = _not(c)
+        if _negs(nc) < _negs(c):
+            return _mk_if(nc, e, t)         # if !a && !b { t } else { e }  ==  if a || b { e } else { t }
     if c[0] == "op" and c[1] == "!=" and len(c[2]) == 2 and not _diverges(t) and not _diverges(e):
         return _mk_if(("op", "==", c[2]), e, t)
     if _diverges(e) and not _diverges(t) and not _is_unit(t):
